@@ -92,39 +92,43 @@ def slot_families(ctx: Ctx, rule: str, only_family: str | None = None, producers
 
 
 def index_dicts(ctx: Ctx, rule: str):
-    """The dict handed to template.<fam>_index maps element name -> index of that same element."""
+    """The dict handed to template.<fam>_index maps element name -> index of that same element (read from what the
+    method computes: a dict comprehension over enumerate, a counter loop, a shared `_slots(items)` helper ...)."""
+    from sa import av
+
     from . import util
 
     cgc = ctx.sm.cls("codegen/base.py", "CodeGenerator")
-    for mname in ("state_index", "parameter_index", "monitor_index"):
-        f0 = cgc.methods.get(mname)
-        ctx.require(f0, f"CodeGenerator.{mname} not found")
-        f = util.nff(ctx, f0)
+    for mname in ("state_index", "parameter_index", "monitor_index", "missing_index"):
+        f = cgc.methods.get(mname)
+        ctx.require(f, f"CodeGenerator.{mname} not found")
+        v = util.value_of(ctx, f)
+        calls = [m_ for m_ in av.find_all(v, "mcall") if m_[2].endswith("_index") and av.show(m_[1]).endswith("template")]
+        vcalls = [x for x in av.find_all(v, "vcall")]
+        if not calls:
+            if av.has_unk(v) or vcalls:
+                ctx.undecided(rule, f.key("template-function"), f"CodeGenerator.{mname}: the call of the index template is not found / understood in what the method computes", f.where())
+            else:
+                ctx.fail(rule, f.key("template-function"), f"CodeGenerator.{mname} calls no template.<family>_index function", f.where())
+            continue
+        c = calls[0]
+        ctx.check(c[2] == mname, rule, f.key("template-function"), f"calls template.{mname}", f"CodeGenerator.{mname} calls template.{c[2]}", f.where())
+        if mname == "missing_index":
+            continue
+        data = dict(c[4]).get("data", c[3][0] if c[3] else None)
+        key = f.key("dict-shape")
+        if data is None or av.has_unk(data):
+            ctx.undecided(rule, key, f"CodeGenerator.{mname}: the table handed to the template is not understood", f.where())
+            continue
+        d_ = av._unwrap_seq(data)
+        if d_[0] == "call" and d_[1] == "dict" and len(d_[2]) == 1:
+            d_ = av._unwrap_seq(d_[2][0])
         ok = False
-        # (a) {e.name: i for i, e in enumerate(..)}   (b) for i, e in enumerate(..): D[e.name] = i   (c) counter: D[x.name] = index
-        for n in ast.walk(f.node):
-            if isinstance(n, ast.DictComp):
-                g = n.generators[0]
-                if isinstance(g.target, ast.Tuple) and len(g.target.elts) == 2 and all(isinstance(e, ast.Name) for e in g.target.elts):
-                    i, e = g.target.elts[0].id, g.target.elts[1].id
-                    ok = ok or (norm(n.key) == f"{e}.name" and norm(n.value) == i and isinstance(g.iter, ast.Call) and norm(g.iter.func) == "enumerate")
-            if isinstance(n, ast.For):
-                stores = [a for a in ast.walk(n) if isinstance(a, ast.Assign) and isinstance(a.targets[0], ast.Subscript) and isinstance(a.value, ast.Name)]
-                for a in stores:
-                    key, val = norm(a.targets[0].slice), a.value.id
-                    if isinstance(n.target, ast.Tuple) and len(n.target.elts) == 2 and all(isinstance(e, ast.Name) for e in n.target.elts) and isinstance(n.iter, ast.Call) and norm(n.iter.func) == "enumerate":
-                        i, e = n.target.elts[0].id, n.target.elts[1].id
-                        ok = ok or (key == f"{e}.name" and val == i)
-                    elif isinstance(n.target, ast.Name):
-                        # manual counter: the stored value is the counter advanced in this loop
-                        augs = {x.target.id for x in ast.walk(n) if isinstance(x, ast.AugAssign) and isinstance(x.target, ast.Name)}
-                        ok = ok or (key == f"{n.target.id}.name" and val in augs)
-        ctx.check(ok, rule, f.key("dict-shape"), "{element.name: index of that element}", f"CodeGenerator.{mname} does not build {{element.name: index of that same element}}", f.where())
-        calls = [c for c in ast.walk(f.node) if isinstance(c, ast.Call) and isinstance(c.func, ast.Attribute) and c.func.attr.endswith("_index") and (dotted(c.func.value) or "").endswith("template")]
-        ctx.check(bool(calls) and calls[0].func.attr == mname, rule, f.key("template-function"), f"calls template.{mname}", f"CodeGenerator.{mname} calls template.{calls[0].func.attr if calls else None}", f.where())
-    f = cgc.methods.get("missing_index")
-    calls = [c for c in ast.walk(f.node) if isinstance(c, ast.Call) and isinstance(c.func, ast.Attribute) and c.func.attr.endswith("_index")]
-    ctx.check(bool(calls) and calls[0].func.attr == "missing_index", rule, f.key("template-function"), "calls template.missing_index", f"CodeGenerator.missing_index calls template.{calls[0].func.attr if calls else None}", f.where())
+        if d_[0] == "comp" and len(d_[3]) == 1 and d_[3][0][0] == "kv":
+            bv = ("bv", d_[1])
+            k_, x_ = d_[3][0][1], d_[3][0][2]
+            ok = k_ == ("attr", bv, "name") and x_[0] in ("idx", "cidx") and x_[1] == d_[1] and x_[2] == av.C(0)
+        ctx.check(ok, rule, key, "{element.name: index of that element}", f"CodeGenerator.{mname} does not build {{element.name: index of that same element}} (it builds {av.show(data)[:100]})", f.where())
 
 
 def _single_comp(v):
